@@ -4,29 +4,26 @@ namespace Slock.Conn
 
 /-! ### Close -/
 def closeState (s : Server) (c : Nat) (x : Conn) : Server :=
-  { s with conns := (s.conns.map (unadopt c)).set c (closing x) }
+  { s with conns := (s.conns.map (unadopt c)).set c (closing x), clients := unregister s c x }
 
 theorem drainK_nonfatal_toks (s₁ : Server) (c : Nat) (x : Conn) (h : (drainK s₁ c x).2 = none) :
-    (drainK s₁ c x).1.map (·.1) = match x.kind with | .binary => x.wills.map (·.tok) | .text => [] := by
+    (drainK s₁ c x).1.map (·.1) = x.wills.map (·.tok) := by
   unfold drainK at h ⊢
   cases hk : x.kind <;> simp only [hk] at h ⊢
   · exact drain_nonfatal_toks s₁ c x.wills h
-  · rfl
-
-theorem drainK_text (s₁ : Server) (c : Nat) (x : Conn) (hk : x.kind = .text) : drainK s₁ c x = ([], none) := by
-  unfold drainK; simp only [hk]
+  · exact drainT_toks x.wills
 
 theorem drainK_prefix (s₁ : Server) (c : Nat) (x : Conn) :
     ∃ rest, x.wills.map (·.tok) = (drainK s₁ c x).1.map (·.1) ++ rest := by
   unfold drainK
   cases hk : x.kind <;> simp only []
   · exact drain_toks_prefix s₁ c x.wills
-  · exact ⟨x.wills.map (·.tok), by simp⟩
+  · exact ⟨[], by simp [drainT_toks]⟩
 
 theorem doClose_none (s : Server) (c : Nat) (x : Conn) (h : (drainK (closeState s c x) c x).2 = none) :
     doClose s c x =
       ({ conns := ((s.conns.map (unadopt c)).set c (closing x)).set c { closing x with inited := false },
-         clients := if x.kind = .binary ∧ x.inited = true ∧ aget s.clients x.cid = some c then adel s.clients x.cid else s.clients,
+         clients := unregister s c x,
          owner := putOwners s.owner c ((drainK (closeState s c x) c x).1.map (·.1)),
          engine := s.engine ++ ((drainK (closeState s c x) c x).1.map (·.1)).map (fun t => (c, t)),
          dead := none },
@@ -41,7 +38,7 @@ theorem doClose_none (s : Server) (c : Nat) (x : Conn) (h : (drainK (closeState 
 theorem doClose_some (s : Server) (c : Nat) (x : Conn) (f : Fatal) (h : (drainK (closeState s c x) c x).2 = some f) :
     doClose s c x =
       ({ conns := (s.conns.map (unadopt c)).set c (closing x),
-         clients := s.clients,
+         clients := unregister s c x,
          owner := putOwners s.owner c ((drainK (closeState s c x) c x).1.map (·.1)),
          engine := s.engine ++ ((drainK (closeState s c x) c x).1.map (·.1)).map (fun t => (c, t)),
          dead := some f },
@@ -85,6 +82,21 @@ theorem closed1_get_ne {s : Server} {c j : Nat} (x : Conn) (h : j ≠ c) :
     ((s.conns.map (unadopt c)).set c (closing x))[j]? = (s.conns[j]?).map (unadopt c) := by
   rw [get_set_ne h, List.getElem?_map]
 
+theorem unregister_some {s : Server} (hg : Good s) {c : Nat} {x : Conn} (hx : s.conns[c]? = some x) (k d : Nat)
+    (h : aget (unregister s c x) k = some d) : aget s.clients k = some d ∧ d ≠ c := by
+  unfold unregister at h
+  have hk' : aget s.clients k = some d ∧ ¬ (x.kind = .binary ∧ x.inited = true ∧ aget s.clients x.cid = some c ∧ k = x.cid) := by
+    split at h
+    · obtain ⟨h1, h2⟩ := aget_adel_some _ _ _ _ h
+      exact ⟨h1, fun hh => h2 hh.2.2.2⟩
+    · rename_i hc
+      exact ⟨h, fun hh => hc ⟨hh.1, hh.2.1, hh.2.2.1⟩⟩
+  refine ⟨hk'.1, ?_⟩
+  obtain ⟨z, hz, _, b, e1, _, g⟩ := hg.clientsOk k d hk'.1
+  intro e'; subst e'
+  rw [hx] at hz; cases hz
+  exact hk'.2 ⟨g, b, by rw [e1]; exact hk'.1, e1.symm⟩
+
 theorem good_doClose {s : Server} (hg : Good s) (hs : Safe s) {c : Nat} {x : Conn} (hx : s.conns[c]? = some x)
     (ho : x.closed = false) (hn : (doClose s c x).2.2 = none) : Good (doClose s c x).1 := by
   have hd : (drainK (closeState s c x) c x).2 = none := by
@@ -100,8 +112,7 @@ theorem good_doClose {s : Server} (hg : Good s) (hs : Safe s) {c : Nat} {x : Con
     dsimp only at hj
     by_cases e : j = c
     · subst e; rw [lkc] at hj; cases hj
-      refine ⟨rfl, by simp [closing], ?_⟩
-      intro hk; simp only [closing] at hk ⊢; simp [hk]
+      exact ⟨rfl, by simp [closing], rfl⟩
     · rw [closed_get_ne x _ e] at hj
       cases h0 : s.conns[j]? with
       | none => rw [h0] at hj; cases hj
@@ -109,7 +120,7 @@ theorem good_doClose {s : Server} (hg : Good s) (hs : Safe s) {c : Nat} {x : Con
         rw [h0] at hj; simp only [Option.map] at hj; cases hj
         rw [unadopt_closed] at hcl
         obtain ⟨a, b, d⟩ := hg.closedShape j y0 h0 hcl
-        refine ⟨by rw [unadopt_inited]; exact a, ?_, fun hk => by rw [unadopt_wills]; exact d (by rw [unadopt_kind] at hk; exact hk)⟩
+        refine ⟨by rw [unadopt_inited]; exact a, ?_, by rw [unadopt_wills]; exact d⟩
         rcases unadopt_target c y0 with ⟨_, h2⟩ | ⟨_, h2⟩
         · rw [h2]; simp
         · rw [h2]; exact b
@@ -140,24 +151,15 @@ theorem good_doClose {s : Server} (hg : Good s) (hs : Safe s) {c : Nat} {x : Con
         · rw [h2] at ht; cases ht
         · rw [h2] at ht
           have hdc : d ≠ c := fun e' => h1 (e' ▸ ht)
-          obtain ⟨z, hz, hzo, hza⟩ := hg.adopted j y0 d h0 ht
-          refine ⟨unadopt c z, ?_, by rw [unadopt_closed]; exact hzo, by rw [unadopt_cid, unadopt_announced]; exact hza⟩
+          obtain ⟨hnz, z, hz, hzo, hza⟩ := hg.adopted j y0 d h0 ht
+          refine ⟨by rw [unadopt_cid]; exact hnz, unadopt c z, ?_, by rw [unadopt_closed]; exact hzo,
+            by rw [unadopt_cid, unadopt_announced]; exact hza⟩
           dsimp only
           rw [closed_get_ne x _ hdc, hz]; rfl
   · intro k d hk
     dsimp only at hk
-    have hk' : aget s.clients k = some d ∧ ¬ (x.kind = .binary ∧ x.inited = true ∧ aget s.clients x.cid = some c ∧ k = x.cid) := by
-      split at hk
-      · rename_i hc
-        obtain ⟨h1, h2⟩ := aget_adel_some _ _ _ _ hk
-        exact ⟨h1, fun hh => h2 hh.2.2.2⟩
-      · rename_i hc
-        exact ⟨hk, fun hh => hc ⟨hh.1, hh.2.1, hh.2.2.1⟩⟩
-    obtain ⟨z, hz, a, b, e1, f, g⟩ := hg.clientsOk k d hk'.1
-    have hdc : d ≠ c := by
-      intro e'; subst e'
-      rw [hx] at hz; cases hz
-      exact hk'.2 ⟨g, b, by rw [e1]; exact hk'.1, e1.symm⟩
+    obtain ⟨hk1, hdc⟩ := unregister_some hg hx k d hk
+    obtain ⟨z, hz, a, b, e1, f, g⟩ := hg.clientsOk k d hk1
     refine ⟨unadopt c z, ?_, by rw [unadopt_closed]; exact a, by rw [unadopt_inited]; exact b, by rw [unadopt_cid]; exact e1,
       by rw [unadopt_announced]; exact f, by rw [unadopt_kind]; exact g⟩
     dsimp only
@@ -173,16 +175,15 @@ theorem good_doClose {s : Server} (hg : Good s) (hs : Safe s) {c : Nat} {x : Con
         rw [h0] at hj; simp only [Option.map] at hj; cases hj
         rw [unadopt_closed] at hop
         rw [unadopt_reg, unadopt_wills]; exact hg.willsOpen j y0 h0 hop
-  · intro j y hj hcl hk
+  · intro j y hj hcl
     dsimp only at hj
     show execL (s.engine ++ toks.map (fun t => (c, t))) j = y.reg
     rw [execL_append]
     by_cases e : j = c
     · subst e; rw [lkc] at hj; cases hj
-      have hkx : x.kind = .binary := by simpa [closing] using hk
       rw [execL_same]
       have h1 : execL s.engine j = [] := hs.execOpen j x hx ho
-      rw [h1, htoks, hkx]
+      rw [h1, htoks]
       simp only [closing, List.nil_append]
       exact (hg.willsOpen j x hx ho).symm
     · rw [closed_get_ne x _ e] at hj
@@ -191,20 +192,36 @@ theorem good_doClose {s : Server} (hg : Good s) (hs : Safe s) {c : Nat} {x : Con
       | some y0 =>
         rw [h0] at hj; simp only [Option.map] at hj; cases hj
         rw [execL_other c j e, List.append_nil, unadopt_reg]
-        rw [unadopt_closed] at hcl; rw [unadopt_kind] at hk
-        exact hg.willsClosed j y0 h0 hcl hk
+        rw [unadopt_closed] at hcl
+        exact hg.willsClosed j y0 h0 hcl
+  · intro j y hj hh
+    dsimp only at hj
+    by_cases e : j = c
+    · subst e; rw [lkc] at hj; cases hj
+      have : x.cid ≠ 0 := by
+        rcases hh with hh | hh
+        · exact hh
+        · cases hh
+      exact hg.announcedOwn j x hx (.inl this)
+    · rw [closed_get_ne x _ e] at hj
+      cases h0 : s.conns[j]? with
+      | none => rw [h0] at hj; cases hj
+      | some y0 =>
+        rw [h0] at hj; simp only [Option.map] at hj; cases hj
+        rw [unadopt_cid, unadopt_announced]
+        rw [unadopt_cid, unadopt_inited] at hh
+        exact hg.announcedOwn j y0 h0 hh
 
 /-- `Safe` survives `Close` whether or not it is fatal -/
 theorem safe_doClose {s : Server} (hs : Safe s) {c : Nat} {x : Conn} (hx : s.conns[c]? = some x) :
     Safe (doClose s c x).1 := by
   have hlen : c < s.conns.length := lt_of_get hx
-  -- both outcomes share: engine = old ++ (c, ·), records other than c keep kind and openness, record c is closed with kind of x
   have key : ∀ (conns' : List Conn) (cl' ow' : List (Nat × Nat)) (dd : Option Fatal) (toks : List Nat),
-      (x.kind = .text → toks = []) → conns'.length = s.conns.length →
-      (∀ xc, conns'[c]? = some xc → xc.closed = true ∧ xc.kind = x.kind) →
+      conns'.length = s.conns.length →
+      (∀ xc, conns'[c]? = some xc → xc.closed = true) →
       (∀ j, j ≠ c → conns'[j]? = (s.conns[j]?).map (unadopt c)) →
       Safe { conns := conns', clients := cl', owner := ow', engine := s.engine ++ toks.map (fun t => (c, t)), dead := dd } := by
-    intro conns' cl' ow' dd toks htx hl hc hne
+    intro conns' cl' ow' dd toks hl hc hne
     constructor
     · intro e he
       dsimp only at he ⊢
@@ -217,7 +234,7 @@ theorem safe_doClose {s : Server} (hs : Safe s) {c : Nat} {x : Conn} (hx : s.con
       dsimp only at hj
       show execL (s.engine ++ toks.map (fun t => (c, t))) j = []
       by_cases e : j = c
-      · subst e; have := (hc y hj).1; rw [this] at hop; cases hop
+      · subst e; have := hc y hj; rw [this] at hop; cases hop
       · rw [hne j e] at hj
         cases h0 : s.conns[j]? with
         | none => rw [h0] at hj; cases hj
@@ -226,38 +243,83 @@ theorem safe_doClose {s : Server} (hs : Safe s) {c : Nat} {x : Conn} (hx : s.con
           rw [unadopt_closed] at hop
           rw [execL_append, execL_other c j e, List.append_nil]
           exact hs.execOpen j y0 h0 hop
-    · intro j y hj hk
-      dsimp only at hj
-      show execL (s.engine ++ toks.map (fun t => (c, t))) j = []
-      by_cases e : j = c
-      · subst e
-        have hkx : x.kind = .text := by rw [← (hc y hj).2]; exact hk
-        rw [htx hkx]; simp only [List.map_nil, List.append_nil]
-        exact hs.execText j x hx hkx
-      · rw [hne j e] at hj
-        cases h0 : s.conns[j]? with
-        | none => rw [h0] at hj; cases hj
-        | some y0 =>
-          rw [h0] at hj; simp only [Option.map] at hj; cases hj
-          rw [unadopt_kind] at hk
-          rw [execL_append, execL_other c j e, List.append_nil]
-          exact hs.execText j y0 h0 hk
-  have htx : x.kind = .text → (drainK (closeState s c x) c x).1.map (·.1) = [] := by
-    intro hk; rw [drainK_text _ _ _ hk]; rfl
   cases hd : (drainK (closeState s c x) c x).2 with
   | none =>
     rw [doClose_none s c x hd]
-    refine key _ _ _ _ _ htx (by simp) ?_ ?_
+    refine key _ _ _ _ _ (by simp) ?_ ?_
     · intro xc hxc
       rw [closed_get_self hx] at hxc; cases hxc
-      exact ⟨rfl, by simp [closing]⟩
+      rfl
     · intro j e; exact closed_get_ne x _ e
   | some f =>
     rw [doClose_some s c x f hd]
-    refine key _ _ _ _ _ htx (by simp) ?_ ?_
+    refine key _ _ _ _ _ (by simp) ?_ ?_
     · intro xc hxc
       rw [closed1_get_self hx] at hxc; cases hxc
-      exact ⟨rfl, by simp [closing]⟩
+      rfl
     · intro j e; exact closed1_get_ne x e
+
+/-! ### `Close` cannot be fatal any more -/
+theorem recvN_open_to (s : Server) (n d tok : Nat) (y : Conn) (hy : s.conns[d]? = some y) (ho : y.closed = false) :
+    recvN s (n + 1) d tok ≠ .loop := by
+  unfold recvN
+  simp only [hy]
+  cases hk : y.kind
+  · simp [ho]
+  · simp only []
+    split
+    · simp
+    · simp [ho]; split <;> simp
+
+theorem drain_alive (s₁ : Server) (c : Nat) (ws : List Will) (h : ∀ tok, recv s₁ c tok ≠ .loop) : (drain s₁ c ws).2 = none := by
+  induction ws with
+  | nil => rfl
+  | cons w ws ih =>
+    unfold drain
+    by_cases hi : w.imm = true
+    · simp only [hi, if_true]
+      split
+      · rename_i hl; exact absurd hl (h w.tok)
+      · exact ih
+    · simp only [hi]; exact ih
+
+theorem doClose_alive {s : Server} (hg : Good s) {c : Nat} {x : Conn} (hx : s.conns[c]? = some x) :
+    (doClose s c x).2.2 = none := by
+  have hd : (drainK (closeState s c x) c x).2 = none := by
+    unfold drainK
+    cases hk : x.kind
+    case text => rfl
+    case binary =>
+      simp only []
+      apply drain_alive
+      intro tok
+      have hc1 : (closeState s c x).conns[c]? = some (closing x) := closed1_get_self hx
+      unfold recv recvN
+      simp only [hc1]
+      have hkk : (closing x).kind = .binary := by simp [closing, hk]
+      simp only [hkk]
+      have hcl : (closing x).closed = true := rfl
+      simp only [hcl, Bool.not_true, Bool.false_eq_true, if_false]
+      cases hi : (closing x).inited with
+      | false => simp
+      | true =>
+        simp only [Bool.not_true, Bool.false_eq_true, if_false]
+        cases hl : aget (closeState s c x).clients (closing x).cid with
+        | none => simp
+        | some e =>
+          simp only []
+          have hl' : aget (unregister s c x) x.cid = some e := hl
+          obtain ⟨h1, hec⟩ := unregister_some hg hx _ _ hl'
+          obtain ⟨y, hy, hyo, _⟩ := hg.clientsOk x.cid e h1
+          have hy1 : (closeState s c x).conns[e]? = some (unadopt c y) := by
+            show ((s.conns.map (unadopt c)).set c (closing x))[e]? = _
+            rw [closed1_get_ne x hec, hy]; rfl
+          have hlen : (closeState s c x).conns.length = (s.conns.length - 1) + 1 := by
+            show ((s.conns.map (unadopt c)).set c (closing x)).length = _
+            have := lt_of_get hx
+            simp; omega
+          rw [hlen]
+          exact recvN_open_to _ _ e tok (unadopt c y) hy1 (by rw [unadopt_closed]; exact hyo)
+  rw [doClose_none s c x hd]
 
 end Slock.Conn
